@@ -2,6 +2,7 @@
    Property theorems only; proofs live in Proofs/{Proposals,Surfaced,Outcome}Proofs.v. *)
 From Verif Require Import Base.Util Model.Types Model.Outcome Model.Validate Model.OutcomeCase
   Proofs.ProposalsProofs Proofs.SurfacedProofs Proofs.OutcomeProofs Proofs.K05Proofs Gen.Generated.
+From Verif Require Import Base.GenIR Gen.GeneratedTr Proofs.GenTrPlugin.
 Open Scope N_scope.
 
 (* The block a new round is stamped with: listed by >= tb valid observations (distinct oracles), and
@@ -135,6 +136,81 @@ Theorem C05_gen_limits :
   QuorumBlocksAdd = 1%Z /\ OutcomeSurfacedProposalsRoundHistoryLimit = 20%Z /\ OutcomeSurfacedProposalsLimit = 50%Z.
 Proof. repeat split; reflexivity. Qed.
 Print Assumptions C05_gen_limits.
+
+Section GenTie.
+Local Open Scope Z_scope.
+(* ---- Tie to the source by translation (Gen/GeneratedTr.v, regenerated from /repo on every run by gen/translate.go) ----
+   g_* are the decision terms translated from the CURRENT Go code: every condition, the branch structure and which
+   white-listed effect statement runs on which path.  The theorems below state that the model's functions - about
+   which every theorem above speaks - are the interpretation of these terms (Z scope inside the generated terms). *)
+(* coordinatedBlockProposals.add, loop over the block history: a block key seen before gets one more vote, a new one gets one vote *)
+Theorem C05_gen_add_decisions :
+  forall present : bool,
+  g_cbp_add_body present = if present then ([1], Fall) else ([2], Fall).
+Proof. exact gen_cbp_add_body. Qed.
+Print Assumptions C05_gen_add_decisions.
+
+(* getLatestQuorumBlock, loop body: the model's lqb_step is the interpretation of the generated body (zero-hash keys skipped, threshold, later height, greater hash at equal height) *)
+Theorem C05_gen_latest_quorum_block_decisions :
+  forall thr most b c,
+  lqb_step true thr most (b, c) =
+  match g_cbp_lqb_body (Z.of_N (bk_hash b)) 0 (Z.of_nat c) (Z.of_nat thr) (Z.of_N (bk_hash most))
+                       (Z.of_N (bk_num b)) (Z.of_N (bk_num most)) with
+  | ([1], Fall) => b
+  | _ => most
+  end.
+Proof. exact gen_cbp_lqb_body. Qed.
+Print Assumptions C05_gen_latest_quorum_block_decisions.
+
+(* getLatestQuorumBlock, whole function: one pass over the vote map, then (mostRecent, mostRecent.Hash != zeroHash) *)
+Theorem C05_gen_latest_quorum_block_shape :
+  g_cbp_lqb = ([1], RetO 1).
+Proof. exact gen_cbp_lqb. Qed.
+Print Assumptions C05_gen_latest_quorum_block_shape.
+
+(* set, carry-over loop: a proposal of the previous outcome is kept unless an agreed performable has its work id *)
+Theorem C05_gen_carry_decisions :
+  forall agreed p t,
+  filter (fun q => negb (perf_exists agreed q)) (p :: t) =
+  match g_cbp_carry_body (perf_exists agreed p) with
+  | ([1], Fall) => p :: filter (fun q => negb (perf_exists agreed q)) t
+  | _ => filter (fun q => negb (perf_exists agreed q)) t
+  end.
+Proof. exact gen_cbp_carry_body. Qed.
+Print Assumptions C05_gen_carry_decisions.
+
+(* set, loop over the round's new proposals: the model's new_props is the interpretation of the generated body *)
+Theorem C05_gen_new_proposal_decisions :
+  forall qb agreed hist added p t,
+  new_props qb agreed hist added (p :: t) =
+  match g_cbp_new_body (prop_exists hist p) (perf_exists agreed p) (memN (p_wid p) added) (has_ext p) with
+  | ([], Cont) => new_props qb agreed hist added t
+  | ([1; 2; 3; 4; 5; 6], Fall) | ([1; 2; 3; 5; 6], Fall) => restamp qb p :: new_props qb agreed hist (p_wid p :: added) t
+  | _ => []
+  end.
+Proof. exact gen_cbp_new_body. Qed.
+Print Assumptions C05_gen_new_proposal_decisions.
+
+(* set, whole function: the model's cset is the interpretation of the generated term (no quorum block: carry over only; history cut to limit-1 when full; per-round cap) *)
+Theorem C05_gen_set_decisions :
+  forall (shuf : N -> N) pi_b thr hl pr bv allnew agreed prev,
+  let surf0 := carry agreed prev in
+  let qbo := latest_quorum_block true pi_b thr bv in
+  let surf1 := if Nat.leb hl (length surf0) then firstn (hl - 1) surf0 else surf0 in
+  let cand := sort_by (fun p => shuf (p_wid p)) (new_props (fst qbo) agreed surf1 [] allnew) in
+  cset shuf true pi_b thr hl pr bv allnew agreed prev =
+  match g_cbp_set (snd qbo) (Z.of_nat (length surf0)) (Z.of_nat hl) (Z.of_nat (length cand)) (Z.of_nat pr) with
+  | ([1; 2], RetU) => surf0
+  | ([1; 2; 3; 4; 5; 6; 7], Fall) => firstn pr cand :: firstn (hl - 1) surf0
+  | ([1; 2; 3; 4; 5; 7], Fall) => cand :: firstn (hl - 1) surf0
+  | ([1; 2; 4; 5; 6; 7], Fall) => firstn pr cand :: surf0
+  | ([1; 2; 4; 5; 7], Fall) => cand :: surf0
+  | _ => []
+  end.
+Proof. exact gen_cbp_set. Qed.
+Print Assumptions C05_gen_set_decisions.
+
+End GenTie.
 
 Example C05_nonvacuous :
   let bv := [(mkBK 100 7, 2%nat); (mkBK 100 9, 2%nat); (mkBK 101 3, 1%nat)] in
